@@ -42,6 +42,11 @@ RULE = ("run = one to three simulated loopback connections on a tape-chosen reac
         "the transport's buffer empty or not, the socket writable or not, the peer reading or not; once abortConnection() has been issued on a connection whose protocol has "
         "not been told yet, that protocol is told ConnectionAborted without any help from the peer; whenever nothing moves any more (no kernel event, idle reactor, no timer) every byte given to a still "
         "open transport must have reached the other protocol - before the scenario pushes on; "
+        "transient refusals: in half of the runs the kernel refuses a send() on a healthy connection now and then (10% or 30% of the calls) with ENOBUFS or with EAGAIN on a "
+        "socket it reported writable - nothing was taken, the socket stays writable, the bytes are due at the next attempt; "
+        "close requests made twice: the closer issues the same request (loseConnection / loseWriteConnection / abortConnection) a second time, at once or at a tape-chosen "
+        "later moment while its protocol has not been told of the end (a half-closing peer sometimes asks twice as well); a repeated request asks for nothing new, so every "
+        "clause stays as it is (a loseWriteConnection() repeated after the first has taken effect only in the REPEAT_HALFCLOSE_AFTER_EFFECT_P share of such connections); "
         "non-trivial = at least one partial or short send/recv or EAGAIN occurred and data flowed")
 ASSUMPTIONS = ["the property names real loopback TCP; the claim is over the kernel MODEL (a real kernel cannot be made replayable): FIFO per direction, FIN ordered behind data, RST discards in-flight data",
                "close() with unread input is modelled as FIN (Linux would send RST); no listen backlog limit",
@@ -56,9 +61,21 @@ ASSUMPTIONS = ["the property names real loopback TCP; the claim is over the kern
                "has paused reading (the stalled-with-unsent-output clause skips that direction)",
                "whether a protocol gets half-close notifications is a matter of the OBJECT handed to the transport (zope.interface per-instance declarations count), not of its class",
                "RSTs are attributed per connection of a run (earlier connections' resets do not soften a later connection's clauses)",
+               "ENOBUFS from send() (and EAGAIN on a socket reported writable) is a transient refusal in the kernel model: nothing was written, the connection is intact and the "
+               "socket is still reported writable; a reactor turn in which a send() was refused counts as activity (quiescence = three turns in a row without one)",
+               "asking for the same close twice is legal and asks for nothing new: the bytes written before the first request are delivered, the reasons stay clean, the peer's "
+               "bytes after a half-close still arrive; no call is made on a transport whose protocol has had connectionLost (no verdict there)",
                "both sides half-closing is exercised with half-closeable protocols only (for any other protocol the peer's FIN ends the connection and discards queued output, so no delivery is demanded)"]
 LEVEL_NOTE = ("Trusted: the kernel model (detsim/kernel.py; readiness table in DESIGN.md A.4), the scenario oracle. Real code: the four reactors, posixbase, base, tcp, abstract. "
               "A violation seen only on the model must be confirmed against real loopback sockets before it is believed.")
+
+
+# Share of the connections (among those whose closer repeats its loseWriteConnection() later on) in which the repeated request may
+# also come AFTER the first one has taken effect (FIN sent, connection still open for reading).  That is the precondition of a
+# genuine defect of the tree as first examined, REPAIRED in /repo 8d922e0 (see MUTANTS: "GENUINE DEFECT"); the precondition is let
+# into half of those connections (0 only for dev-time comparison); in the other connections the request is repeated only while
+# the first one is still pending.
+REPEAT_HALFCLOSE_AFTER_EFFECT_P = 0.5
 
 
 class Rec(protocol.Protocol):
@@ -189,6 +206,10 @@ def run(sim):
     now = [0.0]
     kern = K.Kernel(sim, sndbuf=sndbuf, rcvbuf=rcvbuf)
     kern.spurious_p = sim.draw_choice([0.0, 0.0, 0.05], "spurious_p")
+    # the kernel may refuse a send() for the moment without the connection being any the worse for it (ENOBUFS, or EAGAIN on a
+    # socket that was reported writable): nothing was taken, the same bytes are offered again at the next writable event
+    kern.send_refusal_p = sim.draw_choice([0.0, 0.0, 0.1, 0.3], "send_refusal_p")
+    sim.config["send_refusal_p"] = kern.send_refusal_p
     Wrap = _wrapper_class()
 
     class SF(protocol.Factory):
@@ -231,6 +252,11 @@ def run(sim):
         # close-then-timeout idiom: the side that closed in an orderly way gives up waiting and calls abortConnection(),
         # from a timer it set when it closed, or at a tape-chosen later moment
         escalate = sim.draw_weighted([("none", 4), ("timer", 2), ("op", 1)], "escalate") if closing != "abort" else "none"
+        # an application that asks twice: the closer issues the same close request again (two layers of one application each
+        # doing it, a timeout handler that closes what was closed already) - at once, or at a tape-chosen later moment while its
+        # connection is still there.  A repeated request asks for nothing new.
+        repeat = sim.draw_weighted([("none", 5), ("at-once", 1), ("later", 2)], "repeat_close")
+        repeat_late = closing == "halfclose" and repeat == "later" and sim.draw_bool(REPEAT_HALFCLOSE_AFTER_EFFECT_P, "repeat_after_effect")
         patt = {"C": random.Random(sim.draw_int(0, 10**6, "pattC")).randbytes(maxtotal + 10),
                 "S": random.Random(sim.draw_int(0, 10**6, "pattS")).randbytes(maxtotal + 10)}
         # a half-closeable protocol that sees the peer's FIN after a full close must close itself
@@ -248,7 +274,8 @@ def run(sim):
             return p
 
         cfgd = {"half": half, "closing": closing, "closer": closer, "maxtotal": maxtotal, "oneway": oneway, "peer_mode": peer_mode,
-                "wrapped": "".join(x for x in "CS" if wrapped[x]), "stall": stall, "born_paused": born_paused, "escalate": escalate}
+                "wrapped": "".join(x for x in "CS" if wrapped[x]), "stall": stall, "born_paused": born_paused, "escalate": escalate,
+                "repeat": repeat, "repeat_late": repeat_late}
         sim.config["connections"].append(cfgd)
         cx = dict(cfgd, index=index, st=st, protos=protos, patt=patt, build=build, sndbuf=sndbuf, rcvbuf=rcvbuf)
         cx["cf"] = CF(cx)
@@ -287,7 +314,7 @@ def run(sim):
 
 def _drive(sim, kind, kern, r, now, port, cx):
     closing, closer, half, maxtotal, st, protos, patt, cf = cx["closing"], cx["closer"], cx["half"], cx["maxtotal"], cx["st"], cx["protos"], cx["patt"], cx["cf"]
-    stall, escalate = cx["stall"], cx["escalate"]
+    stall, escalate, repeat, repeat_late = cx["stall"], cx["escalate"], cx["repeat"], cx["repeat_late"]
     addr = port.getHost()
     port_addr = ("127.0.0.1", addr.port)
     rst_before = _rst_count(sim)        # (RSTs of earlier connections of this run say nothing about this one)
@@ -455,9 +482,36 @@ def _drive(sim, kind, kern, r, now, port, cx):
                 sim.probe("lose_after_own_halfclose")
                 st["lose_called"].add(side)
                 p.transport.loseConnection()
+        if repeat == "at-once":
+            repeat_close("at-once")
         if escalate == "timer":
             # close, and do not wait for ever: abortConnection() from a timer set now
             r.callLater(sim.draw_choice([2.0, 0, 0.5], "abort_timeout"), abort_now, "timer")
+
+    def repeat_close(how):
+        """The closer issues its close request a second time (its connection is still there)."""
+        p = protos.get(closer)
+        if p is None or p.lost or state.get("repeated"):
+            return    # (calls on the transport of a finished connection get no verdict: do not issue them)
+        t = p.transport
+        if closing == "halfclose":
+            done = t.getHandle().wr_shut     # the first request has taken effect: our FIN is out
+            if done and not repeat_late:
+                return
+            state["repeated"] = True
+            sim.event(closer, "halfclose-again", how)
+            sim.probe("close_request_repeated/halfclose/" + ("after-effect" if done else "pending"))
+            if done:
+                sim.fault("halfclose_repeated_after_effect")
+            t.loseWriteConnection()
+        else:
+            state["repeated"] = True
+            sim.event(closer, closing + "-again", how)
+            sim.probe("close_request_repeated/" + closing)
+            if closing == "lose":
+                t.loseConnection()
+            else:
+                t.abortConnection()
 
     def abort_now(how):
         """The closer gives up on its orderly close (still pending or not) and aborts."""
@@ -551,9 +605,27 @@ def _drive(sim, kind, kern, r, now, port, cx):
         sim.event(side, "halfclose-too")
         sim.probe("both_sides_halfclose")
         p.transport.loseWriteConnection()
+        if sim.draw_bool(0.2, "peer_halfclose_twice"):
+            sim.probe("close_request_repeated/halfclose/peer-at-once")
+            p.transport.loseWriteConnection()
 
     def timers_due():
         return any(dc.getTime() <= now[0] for dc in r.getDelayedCalls())
+
+    def refusals():
+        # send() calls the kernel refused for the moment (the transport tried; it will be offered the socket again)
+        return sum(v for k, v in sim.faults.items() if k.startswith("send_refused_transiently"))
+
+    def progress():
+        return (sum(s.sent_total + s.recv_total for s in kern.all), len(kern.all), sum(len(p.lost) for p in protos.values()), refusals())
+
+    def settle():
+        """A few more turns of the reactor, to make sure (a turn in which the kernel refused a send() for the moment does not count)."""
+        quiet = 0
+        while quiet < 3:
+            before = refusals()
+            R.iterate(r)
+            quiet = quiet + 1 if refusals() == before else 0
 
     def stalled():
         """Nothing moves any more (no kernel event enabled, the reactor idle, no timer).  Whatever an open transport was
@@ -568,8 +640,7 @@ def _drive(sim, kind, kern, r, now, port, cx):
             # side's protocol must have been told by now (nothing is in flight, the reactor is idle, no timer is pending)
             pa = protos[state["aborted"]]
             if not pa.lost:
-                for _ in range(3):
-                    R.iterate(r)
+                settle()
                 if kern.enabled() or timers_due() or pa.lost:
                     return True
                 sim.fail("aborted-connection-reported", "%s/%s" % (kind, closing),
@@ -585,8 +656,7 @@ def _drive(sim, kind, kern, r, now, port, cx):
             if other[x] in st["lose_called"] and paused[x]:
                 continue    # the receiver has called loseConnection() (it reads no more) and its close is held up by x, which is not reading
             # make sure: a few more turns of the reactor
-            for _ in range(3):
-                R.iterate(r)
+            settle()
             if kern.enabled() or timers_due() or px.lost or py.lost or len(py.got) == written[x]:
                 return True
             sim.fail("stalled-with-unsent-output", "%s/%s" % (kind, closing if state["closed_by"] else "open"),
@@ -636,8 +706,10 @@ def _drive(sim, kind, kern, r, now, port, cx):
                 opts.append(("resume-read", 1))
         if escalate == "op" and state["closed_by"] and not state.get("abort_called") and not protos[closer].lost:
             opts.append(("abort-after-close", 1))
+        if repeat == "later" and state["closed_by"] and not state.get("repeated") and not protos[closer].lost:
+            opts.append(("repeat-close", 1))
         op = sim.draw_weighted(opts, "op")
-        progress_before = (sum(s.sent_total + s.recv_total for s in kern.all), len(kern.all), sum(len(p.lost) for p in protos.values()))
+        progress_before = progress()
         if op == "iterate":
             sim.event("it")
             R.iterate(r)
@@ -681,12 +753,14 @@ def _drive(sim, kind, kern, r, now, port, cx):
             resume_read(sim.draw_choice([x for x in ("C", "S") if paused[x]], "who"), "app")
         elif op == "abort-after-close":
             abort_now("op")
+        elif op == "repeat-close":
+            repeat_close("op")
         elif op == "peer-close":
             peer_close()
         elif op == "peer-halfclose":
             peer_halfclose()
         # quiescence detection: nothing in the kernel to do, an iteration made no progress, no timers
-        after = (sum(s.sent_total + s.recv_total for s in kern.all), len(kern.all), sum(len(p.lost) for p in protos.values()))
+        after = progress()
         if op == "iterate" and after == progress_before and not kern.enabled():
             timers = [dc for dc in r.getDelayedCalls()]
             if timers:
@@ -814,6 +888,15 @@ def _firstdiff(a, b):
 
 # Sensitivity (tools/mutate.py C15 quick ...), all on the quick tier.
 MUTANTS = [
+    "tcp.Connection.writeSomeData: `except BlockingIOError: return 0 / except OSError: return CONNECTION_LOST` - ENOBUFS no longer transient (seed C15-r6a) -> CAUGHT "
+    "(all-bytes-before-*-delivered, closer-reason-clean / reason-clean-after-halfclose, halfclose-peer-bytes-delivered: a refused send() ends the connection with ConnectionLost)",
+    "GENUINE DEFECT of the tree as first examined, REPAIRED in /repo 8d922e0: abstract.FileDescriptor.loseWriteConnection() called again after the first half-close has taken effect: "
+    "_writeDisconnecting stayed set and "
+    "startWriting() was unconditional, doWrite() offered b'' to the write-shut socket, send() failed with EPIPE, the protocol got connectionLost(ConnectionLost) and what the peer "
+    "wrote afterwards was never delivered (reason-clean-after-halfclose:*/halfclose, halfclose-peer-bytes-delivered:*/halfclose; confirmed on real loopback sockets with the "
+    "select, poll and epoll reactors).  The precondition is let into the REPEAT_HALFCLOSE_AFTER_EFFECT_P = 0.5 share of the connections that repeat the request later "
+    "(0 only for dev-time comparison).  Repair: a second loseWriteConnection() after the write side is shut down is a no-op (`if self._writeDisconnected: return` at the top "
+    "of loseWriteConnection()): check passes with the knob on",
     "posixbase._disconnectSelectable: removeWriter() also on the read-side half-close branch (seed C15-r4a) -> CAUGHT (stalled-with-unsent-output:*/halfclose, in the active, passive and "
     "both-sides-half-close variants: the FIN is read while output is queued and the application does not touch the write side again)",
     "tcp.Connection.readConnectionLost: stopWriting() after the protocol's readConnectionLost -> CAUGHT (stalled-with-unsent-output:asyncio/halfclose, connectionLost-exactly-once:poll/lose)",
